@@ -183,6 +183,8 @@ Solve(g, st, fuel, D) ==
           THEN Res(Unit([st EXCEPT !.u.trail = Append(@, ToJson(WalkStar(Norm(g[2][2]), st.smap)))]), 0, FALSE)
           ELSE IF g[2][1] = "isnum"
           THEN Res(IF IsNum(Norm(g[2][2])) THEN Unit(st) ELSE Empty, 0, FALSE)
+          ELSE IF g[2][1] = "isground"
+          THEN Res(IF Ground(Norm(g[2][2])) THEN Unit(st) ELSE Empty, 0, FALSE)
           ELSE LET S1 == Post(st, g[2]) IN Res(IF S1.ok THEN Unit(S1) ELSE Empty, 0, FALSE))
     [] g[1] = "conj"  -> Res(LazyBind(<<"pause", st, g[2]>>, g[3]), 0, FALSE)
     [] g[1] = "dconj" -> Res(LazyBindD(<<"pauseD", st, g[2]>>, g[3]), 0, FALSE)
